@@ -155,6 +155,16 @@ func trustedResourceURLFormat(format string, args map[string]string) (TrustedRes
 		// segments or URL components.
 		return safehtmlutil.QueryEscapeURL(argVal)
 	})
+	if err == nil {
+		// A ".." dot-segment can also be assembled from several arguments, or from an argument and
+		// dots that are adjacent to its marker in the format string, e.g. "%{a}%{b}" or ".%{a}"
+		// with "." for both arguments. Compare with the format string itself, in which markers are
+		// replaced by a path separator so that they cannot take part in a dot-segment.
+		literal := trustedResourceURLFormatMarkerPattern.ReplaceAllString(format, "/")
+		if safehtmlutil.URLDoubleDotSegmentCount(ret) > safehtmlutil.URLDoubleDotSegmentCount(literal) {
+			err = fmt.Errorf(`arguments of format string %q must not form a ".." dot-segment`, format)
+		}
+	}
 	return TrustedResourceURL{ret}, err
 }
 
